@@ -5,6 +5,7 @@ package main
 
 import (
 	"bufio"
+	"encoding/json"
 	"errors"
 	"fmt"
 	"io"
@@ -30,6 +31,8 @@ type chunkReader struct {
 	ci      int
 	ioErr   bool
 	dataErr bool
+	exact   bool  // chunks are arrival bursts: a burst larger than the caller's buffer is served over several Reads
+	rem     int   // exact: bytes left of the current burst
 	done    bool  // the terminal error has been returned: it is returned ever after
 	served  []int // bytes served so far, per Read call
 }
@@ -59,6 +62,24 @@ func (r *chunkReader) Read(p []byte) (int, error) {
 		return 0, nil
 	}
 	n := len(p)
+	if r.exact && r.rem > 0 {
+		// the rest of a burst that did not fit into the previous buffer
+		if r.rem < n {
+			n = r.rem
+		}
+		if n > len(r.data)-r.off {
+			n = len(r.data) - r.off
+		}
+		r.rem -= n
+		copy(p, r.data[r.off:r.off+n])
+		r.off += n
+		r.served = append(r.served, r.off)
+		if r.dataErr && r.off >= len(r.data) {
+			r.done = true
+			return n, r.term()
+		}
+		return n, nil
+	}
 	if r.ci < len(r.chunks) {
 		c := r.chunks[r.ci]
 		r.ci++
@@ -68,6 +89,8 @@ func (r *chunkReader) Read(p []byte) (int, error) {
 		}
 		if c < n {
 			n = c
+		} else if r.exact {
+			r.rem = c - n
 		}
 	}
 	if n > len(r.data)-r.off {
@@ -127,6 +150,10 @@ func parseFilesField(s string) ([]File, error) {
 		}
 		if len(parts) >= 4 && parts[3] != "" {
 			for _, c := range strings.Split(parts[3], ",") {
+				if c == "x" {
+					fl.Exact = true
+					continue
+				}
 				if c == "z" {
 					fl.Chunks = append(fl.Chunks, -1)
 					continue
@@ -172,6 +199,18 @@ func errFields(err error) string {
 	}
 }
 
+// seqShared: while a "seq" request runs, consecutive `run` sub-requests whose selector field
+// (files field) has the same text are handed the SAME []string ([]lang.InputFile) object, as an
+// embedder does that keeps its selector list and file list in one slice and calls EvalProgram
+// several times: what a run does to its arguments is seen by the next run. The slices are
+// looked up by the text of the request field; the readers are new for every run.
+type seqShared struct {
+	sels  map[string][]string
+	files map[string][]lang.InputFile
+}
+
+var curShared *seqShared
+
 func implRun(fields []string) (resp string) {
 	var out outWriter
 	defer func() {
@@ -200,16 +239,53 @@ func implRun(fields []string) (resp string) {
 	var inputs []lang.InputFile
 	var readers []*chunkReader
 	for _, f := range files {
-		r := &chunkReader{data: f.Data, chunks: f.Chunks, ioErr: f.IOErr, dataErr: f.DataErr}
+		r := &chunkReader{data: f.Data, chunks: f.Chunks, ioErr: f.IOErr, dataErr: f.DataErr, exact: f.Exact}
 		readers = append(readers, r)
 		inputs = append(inputs, lang.InputFile{Name: f.Name, Reader: r})
 	}
 	if len(readers) == 1 {
 		out.reader = readers[0]
 	}
+	// the arguments as the request states them, and (inside a seq request) the objects shared
+	// with the earlier runs of the sequence, in whatever state those left them
+	wantSels := append([]string{}, sels...)
+	if curShared != nil {
+		if sh, ok := curShared.sels[fields[2]]; ok {
+			sels = sh
+		} else if sels != nil {
+			sels = append(make([]string, 0, len(sels)), sels...) // len == cap, like a slice literal
+			curShared.sels[fields[2]] = sels
+		}
+		if sh, ok := curShared.files[fields[3]]; ok && len(sh) == len(inputs) {
+			for k := range sh {
+				sh[k].Reader = inputs[k].Reader
+			}
+			inputs = sh
+		} else if inputs != nil {
+			curShared.files[fields[3]] = inputs
+		}
+	}
 	ev, err := lang.EvalProgram(string(prog), inputs, sels, &out, false)
+	// a run must not modify its arguments: reported only when it did
+	argsmod := ""
+	if len(sels) != len(wantSels) {
+		argsmod = " argsmod=selectors"
+	}
+	for k := range wantSels {
+		if k < len(sels) && sels[k] != wantSels[k] {
+			argsmod = " argsmod=selectors"
+		}
+	}
+	for k := range files {
+		if k < len(inputs) && inputs[k].Name != files[k].Name {
+			argsmod = " argsmod=files"
+		}
+	}
+	if argsmod != "" {
+		defer func() { resp += argsmod }()
+	}
 	marks := ""
-	if len(files) == 1 && (len(files[0].Chunks) > 0 || files[0].DataErr) {
+	if len(files) == 1 && (len(files[0].Chunks) > 0 || files[0].DataErr || files[0].Exact) {
 		marks = " marks=" + strings.Join(out.marks, ",")
 		if len(out.marks) == 0 {
 			marks = " marks=-"
@@ -227,7 +303,155 @@ func implRun(fields []string) (resp string) {
 			js = hxs(j)
 		}
 	}
+	if strings.Contains(fields[4], "c") {
+		// huge JSON (deeply nested documents indent to megabytes): the compact form, the raw
+		// length and whether the raw text is the canonical indentation, for the JSON of the
+		// root and for a standard output that consists of one JSON document
+		jf := "json=-"
+		if j, jerr := ev.GetRootJson(); jerr != nil {
+			jf = "json=ERR"
+		} else if f, ok := summariseJSON("json", j); ok {
+			jf = f
+		} else {
+			jf = "json=" + hxs(j) + " jsoncanon=0"
+		}
+		of, ok := summariseJSON("out", string(out.buf))
+		if !ok {
+			of = "out=" + hx(out.buf)
+		}
+		return fmt.Sprintf("R class=ok %s %s depth=%d%s", of, jf, hookDepth(ev), marks)
+	}
 	return fmt.Sprintf("R class=ok out=%s json=%s depth=%d%s", hx(out.buf), js, hookDepth(ev), marks)
+}
+
+// canonIndentEqual reports whether raw is exactly encoding/json's two-space indentation of the
+// compact JSON text `compact` (what MarshalIndent(v, "", "  ") produces), optionally followed by
+// `tail`. The expected text is produced on the fly and compared in place: a document nested
+// 10 000 levels indents to 200 MB.
+func canonIndentEqual(raw string, compact []byte, tail string) bool {
+	pos := 0
+	put := func(c byte) bool {
+		if pos >= len(raw) || raw[pos] != c {
+			return false
+		}
+		pos++
+		return true
+	}
+	newline := func(depth int) bool {
+		if !put('\n') {
+			return false
+		}
+		n := 2 * depth
+		if pos+n > len(raw) {
+			return false
+		}
+		for k := 0; k < n; k++ {
+			if raw[pos+k] != ' ' {
+				return false
+			}
+		}
+		pos += n
+		return true
+	}
+	depth, needIndent, inStr, esc := 0, false, false, false
+	for _, c := range compact {
+		if inStr {
+			if !put(c) {
+				return false
+			}
+			switch {
+			case esc:
+				esc = false
+			case c == '\\':
+				esc = true
+			case c == '"':
+				inStr = false
+			}
+			continue
+		}
+		if needIndent && c != ']' && c != '}' {
+			needIndent = false
+			depth++
+			if !newline(depth) {
+				return false
+			}
+		}
+		switch c {
+		case '{', '[':
+			needIndent = true
+			if !put(c) {
+				return false
+			}
+		case ',':
+			if !put(c) || !newline(depth) {
+				return false
+			}
+		case ':':
+			if !put(c) || !put(' ') {
+				return false
+			}
+		case '}', ']':
+			if needIndent {
+				needIndent = false // an empty container stays closed up
+			} else {
+				depth--
+				if !newline(depth) {
+					return false
+				}
+			}
+			if !put(c) {
+				return false
+			}
+		default:
+			if c == '"' {
+				inStr = true
+			}
+			if !put(c) {
+				return false
+			}
+		}
+	}
+	return raw[pos:] == tail || raw[pos:] == ""
+}
+
+// summariseJSON: for the `c` flag of run / the `z` flag of cli. If text is one JSON document
+// (white space around it allowed) the answer carries, under the given field name, the hex of
+// its COMPACT form instead of the text, the length of the text (<name>raw) and whether the text
+// is exactly the canonical two-space indentation of it, optionally plus a final newline
+// (<name>canon); ok=false if it is not a JSON document.
+func summariseJSON(name, text string) (string, bool) {
+	// white space outside strings removed, without copying the text (it may hold 200 MB)
+	buf := make([]byte, 0, 4096)
+	inStr, esc := false, false
+	for k := 0; k < len(text); k++ {
+		c := text[k]
+		switch {
+		case inStr:
+			switch {
+			case esc:
+				esc = false
+			case c == '\\':
+				esc = true
+			case c == '"':
+				inStr = false
+			}
+		case c == ' ' || c == '\n' || c == '\t' || c == '\r':
+			continue
+		case c == '"':
+			inStr = true
+		}
+		buf = append(buf, c)
+	}
+	if len(buf) == 0 || !json.Valid(buf) {
+		return "", false
+	}
+	canon := 0
+	if canonIndentEqual(text, buf, "\n") {
+		canon = 1
+	} else if !json.Valid([]byte(text)) {
+		return "", false // blanks inside a number or a literal: the text itself is no JSON document
+	}
+	return fmt.Sprintf("%s=%s %sraw=%d %scanon=%d", name, hx(buf), name, len(text), name, canon), true
 }
 
 func implAnswer(line string) (resp string) {
@@ -240,6 +464,10 @@ func implAnswer(line string) (resp string) {
 		// "seq <req1>|<req2>|...": run the sub-requests in order in this process,
 		// answer with the last one's response (history independence, C10)
 		resp = "R class=badrequest"
+		if curShared == nil {
+			curShared = &seqShared{sels: map[string][]string{}, files: map[string][]lang.InputFile{}}
+			defer func() { curShared = nil }()
+		}
 		for _, sub := range strings.Split(strings.TrimSpace(line[4:]), "|") {
 			resp = implAnswer(sub)
 		}
